@@ -48,17 +48,17 @@ type algoCfg struct {
 type algoSUT struct {
 	faultyID    int // the listener registered last panics on every other notification (0: none)
 	faultyCalls int
-	cfg       algoCfg
-	outer     core.Limit // what the application talks to (maybe a wrapper)
-	inner     core.Limit
-	reg       *RecordingRegistry
-	vegas     *limit.VegasLimit
-	grad      *limit.GradientLimit
-	grad2     *limit.Gradient2Limit
-	settable  *limit.SettableLimit
-	notes     map[int][]int // listener id -> values delivered during the current operation
-	nl        int
-	smoothing float64
+	cfg         algoCfg
+	outer       core.Limit // what the application talks to (maybe a wrapper)
+	inner       core.Limit
+	reg         *RecordingRegistry
+	vegas       *limit.VegasLimit
+	grad        *limit.GradientLimit
+	grad2       *limit.Gradient2Limit
+	settable    *limit.SettableLimit
+	notes       map[int][]int // listener id -> values delivered during the current operation
+	nl          int
+	smoothing   float64
 }
 
 // listenerFault is what a faulty change listener of the harness panics with (the caller recovers, as a recovery middleware
